@@ -247,7 +247,8 @@ pub fn present(t: &[char], style: u8, ci: usize, oneline: bool, flow: bool, topl
 }
 
 /// Contexts: 0 top level, 1 block mapping value, 2 block mapping key, 3 sequence entry,
-/// 4 flow sequence entry, 5 flow mapping key, 6 flow mapping value.
+/// 4 flow sequence entry, 5 flow mapping key, 6 flow mapping value, 7 sequence entry after a
+/// plain scalar + empty line.
 /// Returns (text, index of the scalar among the scalar events, total scalar events).
 pub fn render(t: &[char], style: u8, ctx: u8, ch: &mut Ch) -> Option<(String, usize, usize)> {
     let (pre, post, ci, oneline, flow, idx, total): (&str, &str, usize, bool, bool, usize, usize) = match ctx {
@@ -257,7 +258,9 @@ pub fn render(t: &[char], style: u8, ctx: u8, ch: &mut Ch) -> Option<(String, us
         3 => ("- ", "\n- z\n", 1, false, false, 0, 2),
         4 => ("[", ", z]\n", 1, false, true, 0, 2),
         5 => ("{", ": v}\n", 0, true, true, 0, 2),
-        _ => ("{k: ", ", j: w}\n", 1, false, true, 1, 4),
+        6 => ("{k: ", ", j: w}\n", 1, false, true, 1, 4),
+        // a sequence entry after an earlier plain scalar that is followed by an empty line
+        _ => ("- p\n\n- ", "\n", 1, false, false, 1, 2),
     };
     // optional filler in front so that the scalar straddles the 16-character buffer of BufferedInput
     let filler = match ch.pick(4) {
